@@ -279,8 +279,12 @@ func Supervise(o SupOpts) int {
 		known = append(known, k)
 	}
 	sort.Strings(known)
+	evals := total.Runs
+	if info.EvalsAreSteps {
+		evals = total.Steps
+	}
 	cov := map[string]interface{}{
-		"evaluations":         total.Runs,
+		"evaluations":         evals,
 		"distinct_nontrivial": len(nt),
 		"rule":                info.Rule,
 		"samples":             samples,
